@@ -295,6 +295,13 @@ func FieldMenu() []FieldVariant {
 	add("F14-ptr-type", "Ptr *Embedded `json:\"ptr,omitempty\"` // 指针 @tag valid:\"exist\" json:\"p\"", true)
 	add("F15-mention-only", "Mention string `json:\"mention\"` // see @tag", false)
 	add("F16-long", "Long map[string][]*Embedded `protobuf:\"bytes,9,rep,name=long,proto3\" json:\"long,omitempty\" protobuf_key:\"bytes,1,opt,name=key,proto3\" protobuf_val:\"bytes,2,opt,name=value,proto3\"` // @tag valid:\"required\" json:\"l\"", true)
+	// field types that span several lines and hold tag literals of their own (§ = position index for unique names)
+	add("F19-multiline-anonymous-struct", "Nested§ struct {\n\tA int `json:\"a\"`\n\tB string `json:\"b\" valid:\"inner\"` // inner @tag valid:\"never\"\n} `json:\"nested\"` // @tag valid:\"required\"", true)
+	add("F19-multiline-func-type", "Fn§ func(\n\ta int, // first\n\tb string,\n) error `json:\"-\"` // @tag valid:\"exist\"", true)
+	add("F19-oneline-anonymous-struct", "Page§ struct{ No int `json:\"no\"` } `json:\"page\"` // @tag valid:\"required\"", true)
+	// values with backslashes / non-printable-looking runes on keys the annotation does not mention: kept byte for byte
+	add("F20-backslash-in-untouched-value", "Bind string `binding:\"regexp=^\\\\d{6}$\" json:\"bind\"` // @tag valid:\"required\"", true)
+	add("F20-wide-space-in-untouched-value", "Wide string `comment:\"全角　空格\ttab\" json:\"wide\"` // @tag valid:\"required\" json:\"w\"", true)
 	// keys that are a suffix / prefix of another key, same value: key matching must be on whole keys
 	add("F17-key-suffix-of-existing", "KeySuffix string `binding_valid:\"required\" json:\"ks\"` // @tag valid:\"required\"", true)
 	add("F17-key-prefix-of-existing", "KeyPrefix string `json:\"kp\" validx:\"required\"` // @tag valid:\"required\" json:\"kp\"", true)
@@ -309,6 +316,12 @@ func DupKeyMenu() []FieldVariant {
 		{"D1-dup-key-added", "DupA string `json:\"da\"` // @tag valid:\"to=1~150\" valid:\"required\"", true},
 		{"D2-dup-key-overriding", "DupB string `json:\"db\" valid:\"old\"` // @tag valid:\"to=1~150\" valid:\"required\" form:\"f\"", true},
 		{"D3-dup-existing-key", "DupC string `json:\"dc\" valid:\"x\" valid:\"y\"` // @tag valid:\"z\"", true},
+		// annotated fields without a tag literal of their own (what the tool should do with them is not specified;
+		// that a second run changes nothing is)
+		{"D4-no-tag-literal", "NoTag string // @tag valid:\"required\"", true},
+		{"D5-no-tag-literal-inner-tags", "PageNT struct{ No int `json:\"no\"` } // @tag valid:\"required\"", true},
+		{"D6-no-tag-literal-malformed-annotation", "BadNT string // @tag valid:required", true},
+		{"D7-malformed-annotation", "BadT string `json:\"b\"` // @tag valid:required json:", true},
 	}
 }
 
@@ -337,6 +350,9 @@ func StructDecl(name string, fields []FieldVariant) string {
 }
 
 func uniq(t string, i int) string {
+	if strings.Contains(t, "§") {
+		return strings.ReplaceAll(strings.ReplaceAll(t, "§", strconv.Itoa(i)), "\n", "\n\t")
+	}
 	lines := strings.Split(t, "\n")
 	last := lines[len(lines)-1]
 	last = strings.TrimLeft(last, "\t")
